@@ -174,6 +174,41 @@ fn check(rep: &mut Report, rf: &Ref, ast: &RuleAst, text: &str, rule: &tau_engin
             }
         }
     }
+    // the optimised forms of the same rule (all switches / rewrite only / everything but
+    // coalesce): optimisation may trade false for missing, so only truth is compared
+    thread_local! {
+        static OPT: std::cell::RefCell<(String, Vec<(eng::Sw, tau_engine::Rule)>)> = std::cell::RefCell::new((String::new(), vec![]));
+    }
+    let bad = OPT.with(|c| {
+        let mut c = c.borrow_mut();
+        if c.0 != text {
+            c.0 = text.to_string();
+            c.1 = [eng::Sw(15), eng::Sw(4), eng::Sw(14)].iter().filter_map(|s| eng::optimise(rule, *s).ok().map(|r| (*s, r))).collect();
+        }
+        for (sw, r) in c.1.iter() {
+            for (rep_name, got3, e) in [("yaml", eng::solve3(r, &m), yexp), ("std", eng::solve3(r, &h), exp)] {
+                rep.evaluations += 1;
+                match got3 {
+                    Err(p) => return Some((*sw, rep_name, format!("panicked: {}", p.sig()), e)),
+                    Ok(g) => {
+                        if (g == 1 && e & T == 0) || (g != 1 && e == T) {
+                            return Some((*sw, rep_name, ts_name(refi::from_code(g)), e));
+                        }
+                    }
+                }
+            }
+        }
+        None
+    });
+    if let Some((sw, rep_name, got, e)) = bad {
+        rep.violation(
+            "numeric-optimised",
+            &format!("c09-opt:{}:{}", label, doc.get("f").map(|v| v.kind()).unwrap_or("absent")),
+            &format!("{} on f={} ({} delivery), optimised [{}]: engine {} , exact arithmetic allows {}", label, doc.get("f").map(|v| v.to_json_text()).unwrap_or("<absent>".into()), rep_name, sw.name(), got, ts_name(e)),
+            mon::case(text, &ydoc, Some(sw), json!(refi::verdict(e)), json!(got), json!({"form": label, "delivery": rep_name, "allowed": ts_name(e)})),
+        );
+        return None;
+    }
     verdict
 }
 
